@@ -19,7 +19,7 @@ Lemma rangeN_app a n m : rangeN a (n + m) = rangeN a n ++ rangeN (a + N.of_nat n
 Proof.
   revert a. induction n as [|n IH]; intros a; cbn [rangeN Nat.add app].
   - rewrite N.add_0_r. reflexivity.
-  - rewrite IH. do 2 f_equal. rewrite Nat2N.inj_succ. lia.
+  - rewrite IH. do 3 f_equal. rewrite Nat2N.inj_succ. lia.
 Qed.
 Lemma range_split a b c : a <= b -> b <= c -> range a c = range a b ++ range b c.
 Proof.
@@ -70,7 +70,7 @@ Section Search.
               (slen <= j \/ (maxr <= len (acc ++ hits i j) /\ i < j)).
   Proof.
     intros Hok. induction fuel as [|f IH]; intros i acc Hf.
-    - exists i. cbn [search_loop]. rewrite hits_empty, app_nil_r by lia. repeat split; try lia. left; lia.
+    - exists i. cbn [search_loop]. rewrite hits_empty, app_nil_r by lia. repeat split; try lia; try (left; lia).
     - cbn [search_loop]. destruct (i <? slen) eqn:El.
       + apply N.ltb_lt in El. destruct (Hok i El) as [m Hm]. rewrite Hm. cbn [bind].
         assert (Hh : hit i = match_filters fs m) by (unfold hit; rewrite Hm; reflexivity).
@@ -88,7 +88,7 @@ Section Search.
           destruct (N.eq_dec j i) as [->|Hn]; [lia|].
           rewrite (hits_cons i j) by lia. rewrite Hh.
           repeat split; try lia. destruct H3 as [H3|[H3 H4]]; [left; exact H3|right; split; [exact H3|lia]].
-      + apply N.ltb_ge in El. exists i. rewrite hits_empty, app_nil_r by lia. repeat split; try lia. left; lia.
+      + apply N.ltb_ge in El. exists i. rewrite hits_empty, app_nil_r by lia. repeat split; try lia; try (left; lia).
   Qed.
 
   (* one page: the matching positions of the examined range [start, j), and the continuation *)
